@@ -347,7 +347,7 @@ theorem constants_match_source :
     ((List.range 256).filter (fun n => Enc.hexWs (UInt8.ofNat n)) = Generated.hexDecodeWhitespace) ∧
     ((List.range 256).filter (fun n => Enc.ws85 (UInt8.ofNat n)) = Generated.a85DecodeWhitespace) := by
   refine ⟨?_, ?_⟩
-  · decide +kernel
-  · decide +kernel
+  · first | decide +kernel | fail "constants_match_source (C05): the model's Enc.hexWs does not match the source (Generated.hexDecodeWhitespace, re-extracted from pdf/src)"
+  · first | decide +kernel | fail "constants_match_source (C05): the model's Enc.ws85 does not match the source (Generated.a85DecodeWhitespace, re-extracted from pdf/src)"
 
 end Enc
